@@ -877,7 +877,7 @@ func (h *H) drawEntry() rec {
 // TestPropCrashImages: the general state machine
 
 func TestPropCrashImages(t *testing.T) {
-	stats.Check(t, stats.Budget{Quick: 30, Thorough: 700},
+	stats.Check(t, stats.Budget{Quick: 30, Thorough: 500},
 		"rapid history of 8-45 ops append(8 entry kinds, heights W..W+3, rounds 0-2)/prune/flush/close+reopen/crash+continue(as-is or torn image) "+
 			"on the real store; after every flush: as-is image + EVERY cut offset + EVERY corrupted byte (all bits; thorough: also one bit) of the newest log file past the previously synced size; "+
 			"non-trivial = a batch of >=2 records was enumerated and (a prune was followed by appends to a higher height in the same file, or the history continued on a torn image, or appended at a pruned height)",
@@ -956,7 +956,7 @@ func TestPropCrashImages(t *testing.T) {
 const cleanupInterval = 256
 
 func TestPropCleanupSequence(t *testing.T) {
-	stats.Check(t, stats.Budget{Quick: 1, Thorough: 20},
+	stats.Check(t, stats.Budget{Quick: 1, Thorough: 12},
 		"scripted-random history with 256-300 prune-carrying flushes in one session (optional early close+reopen, optional long-lived entry at a far height pinning the first file, 0-2 appends per round), "+
 			"every flush enumerated like TestPropCrashImages; with hook H1 additionally one image per file-system step of the cleanup; non-trivial = the prune watermark file was written and at least one log file was removed",
 		func(rt *rapid.T, c *stats.Case) {
